@@ -252,7 +252,7 @@ func (e *Engine) concretizeSampled(t Term, smallMax int64, nLarge int) int {
 				return 0, false
 			}
 			e.solver.Push()
-			if slot.phase == 0 {
+			if slot.phase == 0 && nLarge > 0 {
 				e.solver.Assert(Sle(t, BV(t.W, smallMax)))
 			} else if nLarge > 0 {
 				e.solver.Assert(Slt(BV(t.W, smallMax), t))
